@@ -1,29 +1,57 @@
-//! C10: cache. script = [policy (0 LRU,1 LFU,2 FIFO), max_size, ttl_ms (-1 none),
-//!   shared (0 private: CacheLayer, 1: SharedCacheLayer::builder, 2: CacheLayer::shared()),
+//! C10: cache. script = [policy (0 LRU,1 LFU,2 FIFO), max_size, ttl (-1 none), sh,
 //!   n callers, m events, (op a b)*m, (oracle*m: ignored here, read by the model)]
-//! op 0 Call a on service b/8 with key b%8 | 1 Poll a | 2 Drop a | 3 Advance a ms
+//!   sh mod 4: 0 private (CacheLayer), 1 SharedCacheLayer::builder, 2|3 CacheLayer::shared();
+//!   sh / 4 odd: ttl is in microseconds, otherwise in milliseconds
+//! op 0 Call a on service b/8 with key b%8 (fresh clone of the service)
+//!    5 Call a with key b%128 (<120) on service (b/128)%2; b/256 = 1: through the long-lived service
+//!      value itself (several calls on one `Cache` value), 0: through a fresh clone
+//!    1 Poll a | 2 Drop a | 3 Advance a ms (1 ms steps) | 6 Advance a microseconds (one jump)
 //!    4 Complete a b (b>0 Ok b, b=0 Err, b<0 panic)
 //! trace per event = [r, value, inner calls started, inner calls in flight,
-//!                    listener events (1 hit, 2 miss, 4 eviction), keys present in store 0, in store 1]
+//!                    listener events (1 hit, 2 miss, 4 eviction),
+//!                    keys present in store 0, in store 1, values present in store 0, in store 1]
 //!
-//! Presence of a key in a store is observed without any hook: the key type counts its
-//! live instances (new/clone/drop). The only holders of a key are the store (>= 1 copy
-//! while present) and the futures of pending misses (exactly one each, the `key` captured
-//! by the async block in Cache::call), which the harness knows.
+//! Presence in a store is observed without any hook, twice:
+//!  * keys: the key type counts its live instances (new/clone/drop). The only holders of a key are the
+//!    store (>= 1 copy while present) and the futures of pending misses (exactly one each, the `key`
+//!    captured by the async block in Cache::call), which the harness knows.
+//!  * values: the response type counts its live instances per (store tag, key) of the request it answers.
+//!    A response exists only from the completion of the inner future on; the holders are the store
+//!    (entry.value) and the not yet polled futures of hits (one clone each), which the harness knows;
+//!    the harness drops every response it receives at once.
+//! Both read the same for the code as it is; they differ for a store that keeps key copies of removed
+//! entries (lazy deletion) or interns keys — the property monitor (gen/c10.py) uses the value view.
+use std::future::Future;
+use std::pin::Pin;
 use std::sync::atomic::{AtomicI64, AtomicUsize, Ordering};
 use std::sync::{Arc, Mutex};
+use std::task::{Context, Poll};
 use std::time::Duration;
 use tower::{Layer, Service};
 use tower_resilience_cache::{Cache, CacheError, CacheLayer, EvictionPolicy, SharedCacheLayer};
 use verif_harness::*;
 
+const NK: usize = 128;
 const Z: AtomicI64 = AtomicI64::new(0);
-static LIVE: [[AtomicI64; 8]; 2] = [[Z; 8], [Z; 8]];
+static LIVE: [[AtomicI64; NK]; 2] = [[Z; NK], [Z; NK]];
+static LIVE_VAL: [[AtomicI64; NK]; 2] = [[Z; NK], [Z; NK]];
 
-#[derive(PartialEq, Eq, Hash)]
+/// `tag` only says which store's counters the instance is booked on; equality and hash look at `k` alone,
+/// so a private store that leaked into the other service would show as a cross-service hit
 struct Key {
     tag: u8,
     k: u8,
+}
+impl PartialEq for Key {
+    fn eq(&self, o: &Key) -> bool {
+        self.k == o.k
+    }
+}
+impl Eq for Key {}
+impl std::hash::Hash for Key {
+    fn hash<H: std::hash::Hasher>(&self, h: &mut H) {
+        self.k.hash(h)
+    }
 }
 impl Key {
     fn new(tag: u8, k: u8) -> Key {
@@ -42,8 +70,53 @@ impl Drop for Key {
     }
 }
 
-type Res = Result<i128, CacheError<i128>>;
-type Svc = Cache<GatedInner, i128, Key, i128>;
+/// response of the inner service: the scripted value, tagged with the (store tag, key) of its request
+struct Val {
+    tag: u8,
+    k: u8,
+    v: i128,
+}
+impl Val {
+    fn new(tag: u8, k: u8, v: i128) -> Val {
+        LIVE_VAL[tag as usize][k as usize].fetch_add(1, Ordering::SeqCst);
+        Val { tag, k, v }
+    }
+}
+impl Clone for Val {
+    fn clone(&self) -> Val {
+        Val::new(self.tag, self.k, self.v)
+    }
+}
+impl Drop for Val {
+    fn drop(&mut self) {
+        LIVE_VAL[self.tag as usize][self.k as usize].fetch_sub(1, Ordering::SeqCst);
+    }
+}
+
+type Table = Arc<Mutex<Vec<(u8, u8)>>>;
+
+/// GatedInner with the response wrapped into a counted `Val` at completion
+#[derive(Clone)]
+struct ValInner {
+    inner: GatedInner,
+    table: Table,
+}
+impl Service<i128> for ValInner {
+    type Response = Val;
+    type Error = i128;
+    type Future = Pin<Box<dyn Future<Output = Result<Val, i128>> + Send>>;
+    fn poll_ready(&mut self, cx: &mut Context<'_>) -> Poll<Result<(), i128>> {
+        self.inner.poll_ready(cx)
+    }
+    fn call(&mut self, req: i128) -> Self::Future {
+        let (tag, k) = self.table.lock().unwrap()[req as usize];
+        let f = self.inner.call(req);
+        Box::pin(async move { f.await.map(|v| Val::new(tag, k, v)) })
+    }
+}
+
+type Res = Result<Val, CacheError<i128>>;
+type Svc = Cache<ValInner, i128, Key, Val>;
 
 fn run(s: &[i128]) -> Vec<i128> {
     let pol = match zn(s, 0) {
@@ -53,20 +126,29 @@ fn run(s: &[i128]) -> Vec<i128> {
     };
     let max_size = zn(s, 1).max(0) as usize;
     let ttl = zn(s, 2);
-    let shared = zn(s, 3);
+    let shared = zn(s, 3).rem_euclid(4);
+    let ttl_us = zn(s, 3).div_euclid(4).rem_euclid(2) == 1;
     let n = zn(s, 4).max(0) as usize;
     let m = zn(s, 5).max(0) as usize;
-    for row in LIVE.iter() {
+    for row in LIVE.iter().chain(LIVE_VAL.iter()) {
         for c in row.iter() {
             c.store(0, Ordering::SeqCst);
         }
     }
+    let ttl_dur = if ttl < 0 {
+        None
+    } else if ttl_us {
+        Some(Duration::from_micros(ttl.min(u64::MAX as i128) as u64))
+    } else {
+        Some(Duration::from_millis(ttl.min((u64::MAX / 1000) as i128) as u64))
+    };
     let rt = paused_rt();
     let tr = rt.block_on(async move {
-        let inner = GatedInner::new();
-        let sh = inner.0.clone();
+        let gated = GatedInner::new();
+        let sh = gated.0.clone();
         // request = caller id; the key extractor looks the (store tag, key) up
-        let table: Arc<Mutex<Vec<(u8, u8)>>> = Arc::new(Mutex::new(vec![(0, 0); n]));
+        let table: Table = Arc::new(Mutex::new(vec![(0, 0); n]));
+        let inner = ValInner { inner: gated, table: table.clone() };
         let hits = Arc::new(AtomicUsize::new(0));
         let misses = Arc::new(AtomicUsize::new(0));
         let evictions = Arc::new(AtomicUsize::new(0));
@@ -75,16 +157,16 @@ fn run(s: &[i128]) -> Vec<i128> {
             let (tag, k) = t2.lock().unwrap()[*req as usize];
             Key::new(tag, k)
         };
-        let base: Vec<Svc> = if shared == 1 {
-            let mut b = SharedCacheLayer::<i128, Key, i128>::builder()
+        let mut base: Vec<Svc> = if shared == 1 {
+            let mut b = SharedCacheLayer::<i128, Key, Val>::builder()
                 .max_size(max_size)
                 .eviction_policy(pol)
                 .key_extractor(extract)
                 .on_hit(move || { h2.fetch_add(1, Ordering::SeqCst); })
                 .on_miss(move || { m2.fetch_add(1, Ordering::SeqCst); })
                 .on_eviction(move || { e2.fetch_add(1, Ordering::SeqCst); });
-            if ttl >= 0 {
-                b = b.ttl(Duration::from_millis(ttl as u64));
+            if let Some(d) = ttl_dur {
+                b = b.ttl(d);
             }
             let l = b.build();
             vec![l.layer(inner.clone()), l.layer(inner.clone())]
@@ -96,12 +178,12 @@ fn run(s: &[i128]) -> Vec<i128> {
                 .on_hit(move || { h2.fetch_add(1, Ordering::SeqCst); })
                 .on_miss(move || { m2.fetch_add(1, Ordering::SeqCst); })
                 .on_eviction(move || { e2.fetch_add(1, Ordering::SeqCst); });
-            if ttl >= 0 {
-                b = b.ttl(Duration::from_millis(ttl as u64));
+            if let Some(d) = ttl_dur {
+                b = b.ttl(d);
             }
             let l = b.build();
             if shared != 0 {
-                let l = l.shared::<i128>();
+                let l = l.shared::<Val>();
                 vec![l.layer(inner.clone()), l.layer(inner.clone())]
             } else {
                 vec![l.layer(inner.clone()), l.layer(inner.clone())]
@@ -109,6 +191,7 @@ fn run(s: &[i128]) -> Vec<i128> {
         };
         let mut callers: Vec<Option<Manual<Res>>> = (0..n).map(|_| None).collect();
         let mut miss: Vec<Option<(u8, u8)>> = vec![None; n];
+        let mut hit: Vec<Option<(u8, u8)>> = vec![None; n];
         let mut tr = Vec::new();
         let evs: Vec<(i128, i128, i128)> = s[6.min(s.len())..]
             .chunks(3)
@@ -122,19 +205,39 @@ fn run(s: &[i128]) -> Vec<i128> {
             sh.take_starts();
             let valid = a >= 0 && (a as usize) < n;
             let i = if valid { a as usize } else { 0 };
+            // (service, key, reuse the long-lived service value)
+            let call: Option<(usize, u8, bool)> = match op {
+                0 if (0..16).contains(&b) => Some(((b / 8) as usize, (b % 8) as u8, false)),
+                5 if (0..512).contains(&b) && b % 128 < 120 => {
+                    Some((((b / 128) % 2) as usize, (b % 128) as u8, b / 256 == 1))
+                }
+                _ => None,
+            };
             match op {
                 3 => advance_ms(a.clamp(0, 100_000) as u64).await,
-                0 if valid && (0..16).contains(&b) && callers[i].is_none() => {
-                    let svc_id = (b / 8) as usize;
-                    let k = (b % 8) as u8;
+                6 => {
+                    let us = a.clamp(0, 1_000_000_000_000) as u64;
+                    VIRT_NS.fetch_add(us * 1000, Ordering::SeqCst);
+                    tokio::time::advance(Duration::from_micros(us)).await;
+                }
+                0 | 5 if valid && call.is_some() && callers[i].is_none() => {
+                    let (svc_id, k, reuse) = call.unwrap();
                     let tag = if shared != 0 { 0u8 } else { svc_id as u8 };
                     table.lock().unwrap()[i] = (tag, k);
-                    // every call goes through a fresh clone (Cache::clone shares the store)
-                    let mut svc = base[svc_id].clone();
-                    futures::future::poll_fn(|cx| svc.poll_ready(cx)).await.ok();
-                    let fut = svc.call(i as i128);
+                    let fut = if reuse {
+                        let svc = &mut base[svc_id];
+                        futures::future::poll_fn(|cx| svc.poll_ready(cx)).await.ok();
+                        svc.call(i as i128)
+                    } else {
+                        // a fresh clone (Cache::clone shares the store)
+                        let mut svc = base[svc_id].clone();
+                        futures::future::poll_fn(|cx| svc.poll_ready(cx)).await.ok();
+                        svc.call(i as i128)
+                    };
                     if !sh.starts.lock().unwrap().is_empty() {
                         miss[i] = Some((tag, k));
+                    } else {
+                        hit[i] = Some((tag, k));
                     }
                     callers[i] = Some(Manual::new(fut));
                 }
@@ -148,7 +251,7 @@ fn run(s: &[i128]) -> Vec<i128> {
                         } else {
                             match mm.done.take().unwrap() {
                                 Ok(v) => {
-                                    val = v;
+                                    val = v.v;
                                     1
                                 }
                                 Err(CacheError::Inner(_)) => 2,
@@ -175,22 +278,40 @@ fn run(s: &[i128]) -> Vec<i128> {
             h0 = h1;
             m0 = m1;
             e0 = e1;
-            let mut pres = [0i128; 2];
-            for tag in 0..2usize {
-                for k in 0..8usize {
-                    let pending = (0..n)
-                        .filter(|&j| miss[j] == Some((tag as u8, k as u8)) && callers[j].as_ref().map_or(false, |c| c.alive()))
-                        .count() as i64;
-                    let live = LIVE[tag][k].load(Ordering::SeqCst);
-                    if live - pending > 0 {
-                        pres[tag] += 1 << k;
+            // holders outside the stores: one key per pending miss, one response per unpolled hit
+            let mut pend_k = [[0i64; NK]; 2];
+            let mut pend_v = [[0i64; NK]; 2];
+            for j in 0..n {
+                if callers[j].as_ref().map_or(false, |c| c.alive()) {
+                    if let Some((t, k)) = miss[j] {
+                        pend_k[t as usize][k as usize] += 1;
                     }
-                    if live - pending < 0 {
-                        pres[tag] = -1_000_000; // accounting broken: make it visible
+                    if let Some((t, k)) = hit[j] {
+                        pend_v[t as usize][k as usize] += 1;
                     }
                 }
             }
-            tr.extend([r, val, started, sh.inflight() as i128, evt, pres[0], pres[1]]);
+            let mut pres = [0i128; 2];
+            let mut pres_v = [0i128; 2];
+            for tag in 0..2usize {
+                for k in 0..120usize {
+                    let live = LIVE[tag][k].load(Ordering::SeqCst) - pend_k[tag][k];
+                    if live > 0 && pres[tag] >= 0 {
+                        pres[tag] += 1 << k;
+                    }
+                    if live < 0 {
+                        pres[tag] = -1_000_000; // accounting broken: make it visible
+                    }
+                    let live_v = LIVE_VAL[tag][k].load(Ordering::SeqCst) - pend_v[tag][k];
+                    if live_v > 0 && pres_v[tag] >= 0 {
+                        pres_v[tag] += 1 << k;
+                    }
+                    if live_v < 0 {
+                        pres_v[tag] = -1_000_000;
+                    }
+                }
+            }
+            tr.extend([r, val, started, sh.inflight() as i128, evt, pres[0], pres[1], pres_v[0], pres_v[1]]);
         }
         drop(callers);
         drop(base);
